@@ -166,6 +166,9 @@ func cGenAttempt(rng *rand.Rand, withRetry bool, allowReject bool, allowCancel b
 		a.End = "eof"
 		if rng.IntN(3) == 0 {
 			a.End = "rerr"
+			if rng.IntN(3) == 0 {
+				a.End = "rerr_eof"
+			}
 		}
 		if len(a.Stream) > 1 {
 			switch rng.IntN(3) {
@@ -226,7 +229,7 @@ func TestC11(t *testing.T) {
 	// byte, cancellation at every offset; whole and byte-at-a-time; all retry limits.
 	for bi, base := range c11Bases {
 		for cut := 0; cut <= len(base); cut++ {
-			for mode := 0; mode < 3; mode++ { // 0 eof, 1 rerr, 2 cancel
+			for mode := 0; mode < 4; mode++ { // 0 eof, 1 rerr, 2 cancel/deadline, 3 read error wrapping io.EOF
 				i := idx
 				idx++
 				if !r.Mine("A", i) {
@@ -237,6 +240,9 @@ func TestC11(t *testing.T) {
 						a := cAttempt{Kind: "stream", Stream: base[:cut], End: "eof", CancelAtOff: -1, ByteReads: bytewise}
 						if mode == 1 {
 							a.End = "rerr"
+						}
+						if mode == 3 {
+							a.End = "rerr_eof"
 						}
 						sc := &cScript{Backoff: cBackoff{InitialInterval: int64(time.Millisecond), Multiplier: 1, Jitter: -1, MaxRetries: mr}, Body: "nil"}
 						if mode == 2 {
@@ -304,15 +310,18 @@ func TestC11(t *testing.T) {
 			}
 			key := fw.Key("C", i)
 			r.Begin(key, base[:cut])
-			for _, bytewise := range []bool{false, true} {
-				e := &readErr{cut}
+			for vi, bytewise := range []bool{false, true, false, true} {
+				var e error = &readErr{cut}
+				if vi >= 2 {
+					e = &eofWrapErr{cut}
+				}
 				cr := &mon.ChunkReader{Data: base[:cut], EndErr: e}
 				if bytewise {
 					cr.Cuts = mon.EveryByte(cut)
 				}
 				obs := runRead(cr, nil, -1)
 				r.Count("read_executions", 1)
-				if obs.Err != error(e) || len(obs.Proto) > 0 {
+				if obs.Err != e || len(obs.Proto) > 0 {
 					tags := []string{"read_error_not_reported_as_itself"}
 					if errors.Is(obs.Err, sse.ErrUnexpectedEOF) {
 						tags = append(tags, "read_error_reported_as_unexpected_eof")
